@@ -325,7 +325,8 @@ func addInline(xVal, yVal uint64, xNeg, yNeg bool) (zVal uint64, zNeg, ok bool) 
 //gcassert:inline
 func mulInline(xVal, yVal uint64, xNeg, yNeg bool) (zVal uint64, zNeg, ok bool) {
 	hi, lo := bits.Mul64(xVal, yVal)
-	neg := xNeg != yNeg
+	// Zero is never negative.
+	neg := xNeg != yNeg && lo != 0
 	overflow := hi != 0
 	return lo, neg, !overflow
 }
@@ -336,7 +337,8 @@ func quoInline(xVal, yVal uint64, xNeg, yNeg bool) (quoVal uint64, quoNeg, ok bo
 		return 0, false, false
 	}
 	quo := xVal / yVal
-	neg := xNeg != yNeg
+	// Zero is never negative.
+	neg := xNeg != yNeg && quo != 0
 	return quo, neg, true
 }
 
@@ -346,7 +348,9 @@ func remInline(xVal, yVal uint64, xNeg, yNeg bool) (remVal uint64, remNeg, ok bo
 		return 0, false, false
 	}
 	rem := xVal % yVal
-	return rem, xNeg, true
+	// Zero is never negative.
+	neg := xNeg && rem != 0
+	return rem, neg, true
 }
 
 ///////////////////////////////////////////////////////////////////////////////
@@ -710,7 +714,8 @@ func (z *BigInt) MulRange(x, y int64) *BigInt {
 func (z *BigInt) Neg(x *BigInt) *BigInt {
 	if x.isInline() {
 		z._inline = x._inline
-		if x._inner == negSentinel {
+		if x._inner == negSentinel || z._inline == [inlineWords]big.Word{} {
+			// Zero is never negative.
 			z._inner = nil
 		} else {
 			z._inner = negSentinel
